@@ -129,7 +129,8 @@ def main(argv=None):
         canary_report.append({'canary': c['name'], 'job': c['job'], 'result': st})
 
     # replay files for violations
-    rep_dir = os.path.join(ROOT, 'replays', pid)
+    out_root = os.environ.get('PYVC_OUT', ROOT)      # tools (seed / mutation runs) redirect evidence and replays away from /verif
+    rep_dir = os.path.join(out_root, 'replays', pid)
     lines = []
     seen_v = set()
     uniq = []
@@ -144,7 +145,7 @@ def main(argv=None):
                'model': o.get('model'), 'note': o.get('note'), 'line': o.get('line'),
                'tier': tier}
         native = None
-        if hasattr(mod, 'native_replay'):
+        if hasattr(mod, 'native_replay') and not os.environ.get('PYVC_NO_NATIVE'):
             try:
                 native = mod.native_replay(o)
             except Exception as e:  # replay machinery failure is not a verdict
@@ -232,8 +233,8 @@ def main(argv=None):
         evidence['coverage']['evaluations'] = len(all_obs)
         evidence['coverage']['distinct_nontrivial'] = len({o['name'] for o in all_obs})
         evidence['coverage']['rule'] = 'one case per named obligation of a bounded symbolic instance (generic in all symbolic inputs); distinct = distinct obligation names'
-    os.makedirs(os.path.join(ROOT, 'evidence'), exist_ok=True)
-    with open(os.path.join(ROOT, 'evidence', f'{pid}.json'), 'w') as fh:
+    os.makedirs(os.path.join(out_root, 'evidence'), exist_ok=True)
+    with open(os.path.join(out_root, 'evidence', f'{pid}.json'), 'w') as fh:
         json.dump(evidence, fh, indent=1, default=str)
 
     print(f'{pid} [{tier}]: {len(obligations)} obligations, {len(discharged)} discharged, ' + (f'{len(bounded_obs)} bounded checks, ' if bounded_obs else '') +
